@@ -205,6 +205,8 @@ class Ctx:
 
 # ----------------------------------------------------------------------------------------
 class Query:
+    ub_notes = ()
+
     def __init__(self, name, harness, units, defs=None, unwind=8, variant="exact", timeout=300,
                  funcs=None, domain="D-FULL", shape=None, stubs=None, extra_cbmc=None, unwindset=None,
                  unit_defs=None, objbits=None, no_unwind_assert=None, known_key=None):
@@ -352,9 +354,9 @@ class Runner:
             except Exception as e:
                 q.status, q.detail = "error", "unparsable cbmc output rc=%d: %s %s" % (rc, so[-500:], se[-500:])
                 return q
-            nobody = [m for m in msgs if "no body for" in m]
+            nobody = [m for m in msgs if "no body for" in m] + [r["property"] for r in results if "no-body" in r.get("property", "")]
             if nobody:
-                q.status, q.detail = "error", "missing unit: " + "; ".join(sorted(set(nobody))[:5])
+                q.status, q.detail = "error", "missing unit: " + "; ".join(sorted(set(nobody))[:8])
                 return q
             if not results:
                 q.status, q.detail = "error", "no results rc=%d: %s" % (rc, " | ".join(msgs[-6:]))
@@ -362,6 +364,12 @@ class Runner:
             q.n_props = len(results)
             wit = [r for r in results if "WITNESS" in r.get("description", "")]
             real_fail = [r for r in results if r["status"] == "FAILURE" and "WITNESS" not in r.get("description", "")]
+            # arithmetic-overflow class (signed overflow in the real code): standard-level UB that gcc's
+            # -fwrapv-like code generation does not expose; reported separately as UB-NOTE (DESIGN 2.7),
+            # a wrong *value* would also fail a CHECK and is handled below
+            ub = [r for r in real_fail if ".overflow." in r["property"]]
+            q.ub_notes = sorted(set("%s: %s" % (r["property"], r.get("description", "")) for r in ub))
+            real_fail = [r for r in real_fail if r not in ub]
             other = [r for r in results if r["status"] not in ("SUCCESS", "FAILURE")]
             if other:
                 q.status, q.detail = "error", "status %s for %s" % (other[0]["status"], other[0]["property"])
@@ -454,6 +462,10 @@ class Runner:
 
     def run_all(self, queries, budget_s=None):
         t0 = time.time()
+        names = [q.name for q in queries]
+        if len(set(names)) != len(names):
+            dup = sorted(set(n for n in names if names.count(n) > 1))
+            raise Infra("duplicate query names: %s" % dup[:5])
         done = []
         # longest first
         qs = sorted(queries, key=lambda q: -q.timeout)
@@ -573,6 +585,10 @@ def write_evidence(ctx, queries, level, extra_cov=None, assumptions=None, violat
     json.dump(ev, open(os.path.join(VERIF, "evidence", ctx.prop + ".json"), "w"), indent=1)
 
 
+G = "mpn/generic/"
+MPZ_BASE = ["memory.c", "mpz/realloc.c", "assert.c", "errno.c", "mp_bpl.c"]
+MPN_LIN = [G + x + ".c" for x in ("add_n", "sub_n", "cmp", "add", "sub", "add_1", "sub_1", "copyi", "copyd", "zero", "lshift", "rshift", "neg_n", "com_n", "zero_p")]
+
 COMMON_ASSUMPTIONS = [
     "CBMC 6.11.0 semantics of C (LP64, little endian) and its SAT back end (cadical) are trusted",
     "x86-64 inline asm of mpn/x86_64/longlong_inc.h is replaced by a C translation generated on every run (lib/asm_inline.py); the translation is compared against the real asm on corner+random vectors natively on every run",
@@ -595,6 +611,11 @@ def finish(ctx, queries, level="model_checking", extra_cov=None, assumptions=Non
             log("KNOWN-FINDING: property=%s %s (query %s)" % (ctx.prop, k[0]["what"], q.name))
         else:
             new_viol.append(q)
+    notes = sorted(set(n for q in queries for n in q.ub_notes))
+    for n in notes[:20]:
+        log("UB-NOTE (signed-overflow class, not a VIOLATION): %s" % n)
+    extra_cov = dict(extra_cov or {})
+    extra_cov["ub_notes"] = notes
     write_evidence(ctx, queries, level, extra_cov, (assumptions or []) + COMMON_ASSUMPTIONS, len(viol), note)
     n = len(queries)
     nd = sum(1 for q in queries if q.status == "discharged")
